@@ -450,7 +450,15 @@ class Ctx:
                 self.bad[k] = ("exit", None, "after %%s: __exit__ leaves PWR_UP=%d CE=%d" % (bool(radio2.r[0] & 2), radio2.ce_pin.value))
                 self.viol("exit", name, cls, self.bad[k][2] % show(ent), hist)
                 return False
-            drv2.__enter__()
+            try:
+                drv2.__enter__()
+            except Exception as e:  # noqa - the cached configuration cannot even be written back
+                w.activate()
+                text = "after %%s the driver's cached configuration differs from the radio: a `with` re-entry raises %s" % (
+                    type(e).__name__)
+                self.bad[k] = ("cache", None, text)
+                self.viol("cache", name, cls, text % show(ent), hist)
+                return False
             d = R.diff(obs, radio2.regfile())
             if R.CONFIG in d and (d[R.CONFIG][0] ^ d[R.CONFIG][1]) == R.PWR_UP:
                 d.pop(R.CONFIG)
